@@ -40,19 +40,23 @@ Outcome(m, keys, ck) ==
   ELSE IF \E i \in 1..Len(m) : m[i].kind \in {"Update", "UrgentUpdate", "InvalidURL"} THEN "update"
   ELSE "noupdate"
 
-VARIABLES keys, ck, url, m, steps
-vars == <<keys, ck, url, m, steps>>
-Init == /\ keys \in KeySets /\ ck \in ClientKeys /\ url \in Urls
+\* the version of the client's apps, and how a reconfiguration spells its (absent or agreeing) version assertion:
+\* explicit null, optional keys left out, or the client's own version.  None of them may change the answer.
+AppVers == {"0.1.2.3", "20.2024.8.1"}
+Forms == {"null", "omitted", "match"}
+VARIABLES keys, ck, url, m, steps, appver
+vars == <<keys, ck, url, m, steps, appver>>
+Init == /\ keys \in KeySets /\ ck \in ClientKeys /\ url \in Urls /\ appver \in AppVers
         /\ \/ (m \in Maps /\ steps = <<>>)
            \/ (m \in SmallMaps /\ steps = <<[op |-> "start", map |-> m]>>)
 Request(rk) == \E p \in Perms(Len(m)) :
   /\ steps' = Append(steps, [op |-> "req", rk |-> rk, order |-> [i \in 1..Len(m) |-> m[p[i]].id],
                              exp |-> Answer(m, p, rk, keys, ck), outcome |-> Outcome(m, keys, ck)])
-  /\ UNCHANGED <<keys, ck, url, m>>
-Reconfigure == \E m2 \in SmallMaps :
+  /\ UNCHANGED <<keys, ck, url, m, appver>>
+Reconfigure == \E m2 \in SmallMaps, f \in Forms :
   /\ m2 # m
-  /\ m' = m2 /\ steps' = Append(steps, [op |-> "set", map |-> m2])
-  /\ UNCHANGED <<keys, ck, url>>
+  /\ m' = m2 /\ steps' = Append(steps, [op |-> "set", map |-> m2, form |-> f])
+  /\ UNCHANGED <<keys, ck, url, appver>>
 \* single requests under every map; and short histories request / reconfigure / request over the small maps
 Next == \/ (steps = <<>> /\ \E rk \in {"uc", "ev"} : Request(rk))
         \/ (steps # <<>> /\ steps[1].op = "start" /\ Len(steps) < 4 /\ url = "/" /\ keys.latest = 1
@@ -64,7 +68,7 @@ Laws == \A i \in 1..Len(steps) : steps[i].op = "req" =>
           /\ Len(steps[i].exp.apps) = Len(steps[i].order)
           /\ \A j \in 1..Len(steps[i].order) : steps[i].exp.apps[j].id = steps[i].order[j]
 Complete == (steps # <<>> /\ steps[1].op # "start") \/ Len(steps) = 4
-Emit == Complete => PrintT("MOCK " \o ToJson([keys |-> [latest |-> keys.latest, hist |-> keys.hist], ck |-> ck, url |-> url,
+Emit == Complete => PrintT("MOCK " \o ToJson([keys |-> [latest |-> keys.latest, hist |-> keys.hist], ck |-> ck, url |-> url, appver |-> appver,
                                              steps |-> steps, m0 |-> IF steps[1].op = "start" THEN steps[1].map ELSE m,
                                              final |-> [order |-> [i \in 1..Len(m) |-> m[i].id], outcome |-> Outcome(m, keys, ck)]]))
 =============================================================================
